@@ -94,7 +94,7 @@ def run(tier):
         for mode in (1, 2, 3, 4, 5, 6):
             variants.append(dict(kind="stock", case=c, sid="stock[%s|IEEEST input mode %d]" % (c, mode), set_param=("IEEEST", "MODE", mode),
                                  baseline_ok=True, baseline_at_limit=at_limit[c], probes=False, flat=False))
-    # documented mode flags and limits that no shipped case uses: the alternative value on the first device of cases that initialise
+    # documented mode flags and limits that no shipped case uses: the alternative value on every device of cases that initialise
     FLAGVARS = {"ieee14/ieee14_solar.xlsx": [("REPCA1", "VCFlag", 0), ("REPCA1", "RefFlag", 0), ("REPCA1", "Fflag", 0), ("REECA1", "PFFLAG", 1),
                                              ("REECA1", "VFLAG", 0), ("REECA1", "QFLAG", 0), ("REECA1", "PFLAG", 1), ("REECA1", "PQFLAG", 1),
                                              ("REGCA1", "Lvplsw", 0)],
@@ -104,7 +104,7 @@ def run(tier):
         if c not in good:
             continue
         for (m_, p_, v_) in lst:
-            variants.append(dict(kind="stock", case=c, sid="stock[%s|%s.%s=%s]" % (c, m_, p_, v_), set_param=(m_, p_, v_), baseline_ok=True,
+            variants.append(dict(kind="stock", case=c, sid="stock[%s|%s.%s=%s]" % (c, m_, p_, v_), set_param=(m_, p_, v_), set_all=True, baseline_ok=True,
                                  baseline_at_limit=at_limit[c], probes=False, flat=True))
     vres = run_tasks("vh.initdrv:task", variants, nproc=NCPU, timeout=1200)
     tasks = tasks + variants
